@@ -26,7 +26,8 @@ type gen struct {
 	// apiReexports: also call re-exported imported functions through the host API
 	apiReexports bool
 	noChains     bool
-	sweepHot     int // how many of the recently written addresses a sweep reads back
+	sweepHot     int    // how many of the recently written addresses a sweep reads back
+	instTag      string // tag of instantiation steps (scenario families with their own signatures)
 	counts       map[string]int
 	lastW        map[int]string // object id -> instance through which it was last written
 }
@@ -274,6 +275,7 @@ func (g *gen) instantiate(spec *ModSpec) instResult {
 	res := g.m.instantiate(spec)
 	g.sc.Mods = append(g.sc.Mods, spec)
 	st := Step{Kind: "inst", Inst: spec.Name, Mod: len(g.sc.Mods) - 1}
+	st.Tag = g.instTag
 	if res.OK && usesMutableImportInConstExpr(spec) {
 		// a runtime may also reject such a module (the specification does): see runEngine
 		st.Tag = "const-expr:global.get-mutable-import"
@@ -1128,6 +1130,11 @@ func (g *gen) genModule(name string) *ModSpec {
 	// start function
 	if r.Chance(1, 4) {
 		spec.Start = g.genStart(spec, memSize, tabTypes, tabSize, nRef, impGlobs)
+	}
+	// the import section lists the kinds in PRNG order (function indexes are not import-section positions)
+	if r.Chance(2, 3) {
+		spec.Imports = interleaveImports(r, spec.Imports, r.Bool())
+		g.count("modules_with_interleaved_import_section")
 	}
 	return spec
 }
